@@ -259,6 +259,9 @@ def run(ctx):
     tv.lengths = [len(t["trials"]) + 2 for t in ls_traces]
     for tid, l, clause in tv.propfail:
         ctx.violation(dict(kind="line-search", function=ls_meta[tid]["function"]), "line search on %s: %s (%s)" % (ls_meta[tid]["function"], clause, ls_meta[tid]), replay=dict(what="ls", **ls_meta[tid]))
+    for tid, name in tracemod.masked_truth(tv, ls_traces, lambda t: dict(wolfe=t["wolfe"])):
+        ctx.violation(dict(kind="line-search", function=ls_meta[tid]["function"]), "line search on %s: success reported but the returned point violates the strong Wolfe conditions "
+                      "(the search also left the transcribed skeleton at trial %d) (%s)" % (ls_meta[tid]["function"], tv.maxl[tid], ls_meta[tid]), replay=dict(what="ls", **ls_meta[tid]))
     for tid in tv.rejected:
         if not any(t == tid for t, _, _ in tv.propfail):
             ctx.add_drift("line search %s: trial %d does not follow the transcribed skeleton (%d trials, success=%s)" % (ls_meta[tid]["function"], tv.maxl[tid], len(ls_traces[tid]["trials"]), ls_traces[tid]["success"]))
